@@ -3247,6 +3247,11 @@ generalized_affine_preimage(const Variable var,
                            "r is the disequality relation symbol");
   }
 
+  // Any preimage of an empty polyhedron is empty.
+  if (marked_empty()) {
+    return;
+  }
+
   // Check whether the affine relation is indeed an affine function.
   if (relsym == EQUAL) {
     affine_preimage(var, expr, denominator);
